@@ -1,5 +1,6 @@
 From Coq Require Extraction.
 From Coq Require Import ExtrOcamlBasic.
 From NV Require Import Base.Witness Async.Framing Bgzf.Vpos Bgzf.Gzi Bgzf.ReaderOps Async.Reader.
+From NV Require Bgzf.Frame Bgzf.Writer Async.Writer.
 Extraction "model.ml" nv_types_witness async_obs_case sync_obs_case
-  async_reader_case sync_reader_case pack vcomp vuncomp.
+  async_reader_case sync_reader_case pack vcomp vuncomp NV.Async.Writer.async_writer_case.
